@@ -6,6 +6,7 @@ import Orda.Proofs.MapCounter
 import Orda.Proofs.Rga
 import Orda.Proofs.RgaFull
 import Orda.Proofs.DocConv
+import Orda.Proofs.DocArr
 namespace Orda.Props.C02
 open Orda
 
@@ -105,6 +106,19 @@ theorem doc_key_removed_by_newest_remove {d : Doc} {ops : List ObjOp} (h : Good 
     (hnew : ∀ st, keyOf' d p k = some st → st.time.cmp ts = .lt) :
     ∃ c, occupant (applyAll d ops) p k = some c ∧ (applyAll d ops).isTomb c = true ∧
       (applyAll d ops).timeOf c = ts := key_denote_del h hp hw hnew
+
+open Orda.DA Orda.DC in
+/-- document array slot: a delete acts on the slot exactly like the flat list's delete effect (it dominates,
+    the tombstone keeps the greatest delete stamp) … -/
+theorem doc_array_delete_is_list_delete (t c o : Ts) (w w' : JVal) (st : KeySt) :
+    stR o w' (aDelStep t c st).st = (RF.Eff.del t).app (stR o w st) := del_eff t c o w w' st
+
+open Orda.DA Orda.DC in
+/-- … and an update like the flat list's update effect (the newer one wins on a live slot, a tombstone is
+    never revived): the merge rule of `list_element_is_newest_update` is the rule of document arrays -/
+theorem doc_array_update_is_list_update (n c o : Ts) (w v : JVal) (st : KeySt) :
+    stR o (if !st.tomb && st.time.cmp n == .lt then v else w) (aUpdStep n c st).st =
+      (RF.Eff.upd v n).app (stR o w st) := upd_eff n c o w v st
 
 -- non-vacuity: a concrete conflict (remove older than a concurrent put) resolves to the put
 example :
